@@ -25,7 +25,8 @@ PROBES = ["op_mask", "op_base64", "op_base64url", "op_netbios", "op_netbiosu", "
           "term_header", "term_parameter", "term_print", "term_uri_append", "uri_append_nonempty_initial_uri",
           "static_parameter", "static_header", "encoder_repeated", "three_build_blocks", "peer_unpadded_base64url",
           "empty_payload", "binary_affix", "session_population", "transform_without_initial_request", "sibling_configuration",
-          "payload_over_64k", "three_build_blocks_tuple_level", "initial_request_without_request_line", "mask_key_with_zero_bytes"]
+          "payload_over_64k", "three_build_blocks_tuple_level", "initial_request_without_request_line", "mask_key_with_zero_bytes",
+          "case_twin_headers", "static_parameter_query_syntax", "damaged_message_then_intact"]
 RULE = ("seeded plans: 85% exchange plans - three programs (every ordering/repetition of the seven encoders up to length 6, "
         "prepend/append arguments incl. empty and binary, each termination kind, 1-3 build blocks, static headers/"
         "parameters) compiled to the binary setting encoding, 4-10 messages with payloads of 0-4096 bytes and arbitrary "
@@ -69,7 +70,13 @@ def _gen_any_program(rng, kind):
             if n in names:
                 continue
             names.add(n)
-            steps.append(["_parameter", hx(f"{n}={_word(rng, 0, 8)}".encode())])
+            pv = _word(rng, 0, 8).encode()
+            if rng.random() < 0.3:
+                # the program holds the literal value: characters with a meaning in query strings and bytes >= 0x80 are
+                # placed as they are (encoding for the wire is the HTTP layer's job, not the transform's)
+                pv = rng.choice([b"a+b", b"100%25", b"%41", b"x&y=1", b"a=b=c", b"%zz", b"+", b"caf\xc3\xa9", b"\xff\xfe", b"a b",
+                                 b"a;b", b"#frag", b"?q"]) + pv
+            steps.append(["_parameter", hx(n.encode() + b"=" + pv)])
     used_print = used_uri = False
     for b in builds:
         steps.append(["build", b])
@@ -80,6 +87,15 @@ def _gen_any_program(rng, kind):
             n = ("H-" if t == "header" else "p") + _word(rng, 1, 6)
             while n.lower() in names or n in names:
                 n = n + _word(rng, 1, 3)
+            statics = [bytes.fromhex(s_[1]).partition(b": ")[0].decode() for s_ in steps if s_[0] == "_header"]
+            if t == "header" and statics and rng.random() < 0.2:
+                # the data header is a case twin of a static header (x-ab / X-AB): two different names for the transform,
+                # which keys its header map by the exact bytes
+                tw = rng.choice(statics)
+                tw = rng.choice([tw.lower(), tw.upper(), tw.swapcase()])
+                if tw not in statics and tw not in names:
+                    n = tw
+                    names.add(n)
             names.add(n.lower() if t == "header" else n)
             steps.append([t, hx(n.encode())])
         else:
@@ -261,6 +277,8 @@ def _exchange(res, cfg, messages, probes):
                     res.probes["term_" + s[0]] += 1
                 if s[0] == "_parameter":
                     res.probes["static_parameter"] += 1
+                    if any(c in unhx(s[1]).partition(b"=")[2] for c in b"+%&=;#? ") or any(c > 126 for c in unhx(s[1])):
+                        res.probes["static_parameter_query_syntax"] += 1
                 if s[0] == "_header":
                     res.probes["static_header"] += 1
                 if s[0] in ("prepend", "append"):
@@ -268,6 +286,9 @@ def _exchange(res, cfg, messages, probes):
                         res.probes["empty_affix"] += 1
                     elif any(b > 126 or b < 32 for b in unhx(s[1])):
                         res.probes["binary_affix"] += 1
+            hn = [rc.arg(s_).partition(b": ")[0] for s_ in steps if s_[0] == "_header"] + [rc.arg(s_) for s_ in steps if s_[0] == "header"]
+            if len({h.lower() for h in hn}) < len(set(hn)):
+                res.probes["case_twin_headers"] += 1
             if len(encs) != len(set(encs)):
                 res.probes["encoder_repeated"] += 1
             if sum(1 for s in steps if s[0] == "build") >= 3:
@@ -429,6 +450,37 @@ def _exchange(res, cfg, messages, probes):
                             f"{prog} message #{mi} no longer decodes to its data after later transform() calls on the same "
                             f"decoder: {str(back)[:200]} vs {str(want)[:200]}")
                 break
+        # ---- a fault, then intact messages: the transform is shown messages whose data carrier (the header / parameter of one
+        # build block) is missing - whatever it does with them - and afterwards has to recover the intact messages exactly
+        shown = 0
+        for mi, prog, steps, req, want, base in produced[:6]:
+            terms = [s_ for s_ in steps if s_[0] in ("header", "parameter")]
+            if not terms:
+                continue
+            s_ = terms[mi % len(terms)]
+            hd, pr = dict(req.headers), dict(req.params)
+            (hd if s_[0] == "header" else pr).pop(rc.arg(s_), None)
+            try:
+                tf[prog].recover(HttpRequest(method=req.method, uri=req.uri, params=pr, headers=hd, body=req.body))
+            except Exception:
+                pass
+            shown += 1
+        if shown:
+            res.probes["damaged_message_then_intact"] += 1
+            for mi, prog, steps, req, want, base in produced:
+                if base and any(s_[0] == "uri_append" for s_ in steps):
+                    continue        # (known finding F-C04-1 territory: judged above under its own signature)
+                try:
+                    got = tf[prog].recover(req)
+                    gotd = {"metadata": got.metadata, "id": got.id, "output": got.output}
+                    bad = [b for b in want if (gotd[b] or b"") != want[b]]
+                except Exception as e:
+                    bad = [repr(e)]
+                if bad:
+                    res.violate(("C04", "intact_message_after_damaged_one", prog),
+                                f"after recover() was shown messages with a missing data header / parameter, the intact {prog} "
+                                f"message #{mi} no longer recovers to its data ({bad!r:.200}); program {steps}")
+                    break
 
 
 def execute(plan: dict) -> Result:
